@@ -250,10 +250,24 @@ func (e *Exec) loadFrom(st *State, loc *Loc, useOld bool) Val {
 		} else {
 			a = e.curArr(st, k, locSort(loc, l))
 		}
+		var term string
 		if loc.Idx != "" {
-			v.T = append(v.T, app("select", app("select", a, loc.Ref), loc.Idx))
+			term = app("select", app("select", a, loc.Ref), loc.Idx)
 		} else {
-			v.T = append(v.T, app("select", a, loc.Ref))
+			term = app("select", a, loc.Ref)
+		}
+		v.T = append(v.T, term)
+		// references found in the entry heap predate every allocation of this path
+		if !useOld && l.Sort == SInt && refLeaf(loc.Typ, l) && !st.impure[k] && !strings.Contains(term, "|q:") {
+			if a == e.entryArrName(k) {
+				st.assumeOnce(app("<", term, "BASE"))
+			} else if len(st.fresh) <= 40 {
+				alts := []string{app("<", term, "BASE")}
+				for _, f := range st.fresh {
+					alts = append(alts, tEq(term, f))
+				}
+				st.assumeOnce(tOr(alts...))
+			}
 		}
 	}
 	if len(v.T) == 2 && isProtoOneof(loc.Typ) && !useOld {
@@ -806,6 +820,19 @@ func (e *Exec) Run() {
 
 type reachErr string
 
+// refLeaf: the leaf holds an object reference (not a string id, tag or ghost value).
+func refLeaf(t types.Type, l Leaf) bool {
+	switch t.Underlying().(type) {
+	case *types.Pointer, *types.Map, *types.Chan, *types.Signature:
+		return true
+	case *types.Interface:
+		return l.Name == "val" && !isTypeParam(t)
+	case *types.Slice:
+		return l.Name == "base"
+	}
+	return false
+}
+
 // isProtoOneof: the generated oneof interface types of tunnelpb (a set member is a non-nil wrapper).
 func isProtoOneof(t types.Type) bool {
 	n, ok := t.(*types.Named)
@@ -832,7 +859,7 @@ func (e *Exec) assumeTypeWF(st *State, v Val, t types.Type) {
 		return
 	}
 	for _, c := range tc.Invariants {
-		if c.Lock != "wf" {
+		if c.Lock != "wf" && c.Lock != "api" {
 			continue
 		}
 		ov := Val{T: v.T, Typ: t}
@@ -1036,6 +1063,17 @@ func (e *Exec) nopanic(st *State, what string, in ssa.Instruction, goal string) 
 		st.assume(goal)
 		return
 	}
+	if e.fc != nil && len(e.fc.NoPanicKinds) > 0 && !e.sweepNoPanic {
+		listed := false
+		for _, k := range e.fc.NoPanicKinds {
+			listed = listed || k == what
+		}
+		if !listed {
+			st.note("no-panic kind %s not claimed for this function (API precondition): assumed", what)
+			st.assume(goal)
+			return
+		}
+	}
 	if goal != "true" {
 		pos := in.Pos()
 		anchor := what + "@" + e.srcAnchor(fr, in)
@@ -1095,7 +1133,11 @@ func (e *Exec) doReturn(st *State, r *ssa.Return) {
 // identName extracts the identifier a DebugRef describes.
 func identName(d *ssa.DebugRef) string {
 	if id, ok := d.Expr.(*ast.Ident); ok {
-		return id.Name
+		// only local variables and parameters: field selectors also produce
+		// DebugRefs for their Sel identifier, which must not shadow variables
+		if v, ok := d.Object().(*types.Var); ok && !v.IsField() {
+			return id.Name
+		}
 	}
 	return ""
 }
